@@ -81,8 +81,14 @@ inductive CmpOp where
   | eq | ne | lt | le | gt | ge
   deriving DecidableEq, Repr
 
+/-- the remaining comparison operators of the grammar (`comparison_op`): `in`, `not in`, `is` -/
+inductive OtherOp where
+  | isIn | notIn | is
+  deriving DecidableEq, Repr
+
 inductive FExpr where
   | cmp (op : CmpOp) (l r : Operand)   -- `Expr::Binary { op ∈ {Eq,NotEq,Lt,Le,Gt,Ge}, .. }`
+  | other (op : OtherOp) (l r : Operand) -- `Expr::Binary { op ∈ {In,NotIn,Is}, .. }`
   | atom (o : Operand)                 -- a bare field or literal used as a condition
   | and (a b : FExpr)
   | or (a b : FExpr)
@@ -128,6 +134,28 @@ def evalCmpOld (op : CmpOp) (x y : Value) : Option Value :=
   | .str _, .str _ => (match op with | .eq => evalCmp op x y | .ne => evalCmp op x y | _ => none)
   | _, _ => evalCmp op x y
 
+/-- `str::contains` (substring) on the characters -/
+def isInfixL (a : List Char) : List Char → Bool
+  | [] => a.isEmpty
+  | c :: cs => a.isPrefixOf (c :: cs) || isInfixL a cs
+
+/-- arms `BinOp::In` / `BinOp::NotIn` of `eval_expr_with_functions`; `BinOp::Is` has no arm (`_ => None`) -/
+def evalOther (op : OtherOp) (x y : Value) : Option Value :=
+  match op with
+  | .is => none
+  | .isIn =>
+    match x, y with
+    | v, .array l => some (.bool (l.any fun e => veq e v))
+    | .str k, .map m => some (.bool (lookupV k m).isSome)
+    | .str sub, .str s => some (.bool (isInfixL sub.toList s.toList))
+    | _, _ => none
+  | .notIn =>
+    match x, y with
+    | v, .array l => some (.bool (!(l.any fun e => veq e v)))
+    | .str k, .map m => some (.bool (!(lookupV k m).isSome))
+    | .str sub, .str s => some (.bool (!isInfixL sub.toList s.toList))
+    | _, _ => none
+
 def asBool : Value → Option Bool
   | .bool b => some b
   | _ => none
@@ -136,6 +164,10 @@ def evalE : FExpr → Event → Option Value
   | .cmp op l r, ev =>
     match evalOperand l ev, evalOperand r ev with
     | some x, some y => evalCmp op x y
+    | _, _ => none
+  | .other op l r, ev =>
+    match evalOperand l ev, evalOperand r ev with
+    | some x, some y => evalOther op x y
     | _, _ => none
   | .atom o, ev => evalOperand o ev
   | .and a b, ev =>
@@ -205,12 +237,14 @@ def comparePath : Operand → Operand → Option (String × Value)
   | .field f, .lit l => (l.compareValue).map fun v => (f, v)
   | _, _ => none
 
-/-- `compiler.rs expr_to_sase_predicate` -/
+/-- `compiler.rs expr_to_sase_predicate` (since the `fix:` commit a binary operator without a
+predicate form falls back to `Predicate::Expr` like every other unsupported shape) -/
 def toPred : FExpr → Pred
   | .cmp op l r =>
     match comparePath l r with
     | some (f, v) => .compare f op v
     | none => .expr (.cmp op l r)
+  | .other op l r => .expr (.other op l r)
   | .atom o => .expr (.atom o)
   | .and a b => .and (toPred a) (toPred b)
   | .or a b => .or (toPred a) (toPred b)
@@ -229,6 +263,26 @@ def evalP : Pred → Event → Bool
 
 /-- the step `T where e` accepts the event -/
 def stepAccepts (e : FExpr) (ev : Event) : Bool := evalP (toPred e) ev
+
+/-- `expr_to_sase_predicate` before the `fix:` commit: `In`/`NotIn`/`Is` (any binary operator other
+than the six comparisons, `and`, `or`) made the *whole* translation return `None` (the `?` in the
+`and`/`or`/`not` arms propagates it) -/
+def toPredOld : FExpr → Option Pred
+  | .other _ _ _ => none
+  | .and a b => match toPredOld a, toPredOld b with
+    | some p, some q => some (.and p q)
+    | _, _ => none
+  | .or a b => match toPredOld a, toPredOld b with
+    | some p, some q => some (.or p q)
+    | _, _ => none
+  | .not a => (toPredOld a).map .not
+  | e => some (toPred e)
+
+/-- … and a step whose filter has no predicate accepts every event of its type -/
+def stepAcceptsOld (e : FExpr) (ev : Event) : Bool :=
+  match toPredOld e with
+  | some p => evalP p ev
+  | none => true
 
 /-! ### where the two contexts can differ: the guard of the partial theorem -/
 
@@ -287,6 +341,7 @@ def whyStrong : FExpr → Event → Option Finding
       | some x => whyCmpStrong op x v
       | none => some .errorOperand
     | none => if isBoolResult (evalE (.cmp op l r) ev) then none else some .errorOperand
+  | .other op l r, ev => if isBoolResult (evalE (.other op l r) ev) then none else some .errorOperand
   | .atom o, ev => if isBoolResult (evalOperand o ev) then none else some .errorOperand
   | .and a b, ev => orElse (whyStrong a ev) (whyStrong b ev)
   | .or a b, ev => orElse (whyStrong a ev) (whyStrong b ev)
@@ -302,6 +357,7 @@ def whyWeak : FExpr → Event → Option Finding
       | some x => whyCmpWeak op x v
       | none => none
     | none => none
+  | .other _ _ _, _ => none
   | .atom _, _ => none
   | .and a b, ev => orElse (whyWeak a ev) (whyWeak b ev)
   | .or a b, ev => orElse (whyStrong a ev) (whyStrong b ev)
@@ -309,5 +365,6 @@ def whyWeak : FExpr → Event → Option Finding
 
 /-- the guard of `where_step_agree_partial` -/
 def agreeGuard (e : FExpr) (ev : Event) : Bool := (whyWeak e ev).isNone
+
 
 end Varpulis.Filter
